@@ -8,7 +8,7 @@ from typing import Any
 from ..astutil import attr_writes
 from ..cfg import Node, cfg_of, node_calls, walk_own
 from ..closed import resolver
-from ..flow import occurred_before
+from ..flow import fmt_path, occurred_before, paths_avoiding
 from ..guard import fmt_table, truth_table, walk
 from ..report import Ctx
 from ..src import AnalysisError, Func, norm, own_nodes
@@ -427,7 +427,39 @@ def run(ctx: Ctx) -> None:
                 reports = any(isinstance(c, ast.Call) and isinstance(c.func, ast.Attribute) and c.func.attr in ("_handle_error", "_handle_error_and_close") for b in h.body for c in ast.walk(b))
                 reraises = isinstance(h.body[-1], ast.Raise)
                 ctx.ob("C04.R2", fn, f"except {norm(h.type)} around {sorted(callee_names)} reports or re-raises", reports or reraises, "a frame that fails authentication would be dropped silently and the session would go on", node=h)
-    ctx.ob("C04.R2", hf, "authentication failure propagates out of the READY handler (asyncio turns it into connection_lost)", True, "")
+    # A frame that fails authentication raises out of its handler while the state is still READY / HANDSHAKE; until
+    # connection_lost() arrives the only thing that keeps later reads from being delivered is that the failing frame
+    # is still at the head of the buffer (it fails again).  So: within one iteration of the receive loop the frame is
+    # consumed only after its handler returned, unless every authenticating call in the handlers is handled locally.
+    gdr = cfg_of(ctx, dr)
+    hnames = {"_handle_frame", "_handle_hello", "_handle_handshake"}
+    hnodes = {n for n in gdr.reachable() if any(f.name in hnames for c in node_calls(n) for f in res.callees(dr, c).funcs)}
+    cnodes = [n for n in gdr.reachable() if any(f.name == "_remove_from_buffer" for c in node_calls(n) for f in res.callees(dr, c).funcs)]
+    loops_dr = [x for x in own_nodes(dr.node) if isinstance(x, ast.While)]
+    ctx.require(len(loops_dr) == 1 and hnodes and cnodes, "noise data_received: receive loop, handler dispatch or consume step not found")
+    heads = {n for n in gdr.reachable() if n.kind == "join" and n.ast is loops_dr[0]}
+
+    def _escaping_auth(h: Func) -> list[str]:
+        out = []
+        tries = [t for t in own_nodes(h.node) if isinstance(t, ast.Try)]
+        for c in own_nodes(h.node):
+            if isinstance(c, ast.Call) and isinstance(c.func, ast.Attribute) and c.func.attr in ("decrypt", "read_message"):
+                local = any(any(c in set(ast.walk(b)) for b in t.body) and t.handlers and not any(isinstance(hd.body[-1], ast.Raise) for hd in t.handlers) for t in tries)
+                if not local:
+                    out.append(f"{h.name}:{norm(c)[:40]}")
+        return out
+
+    esc = [e for hn_ in sorted(hnames) if hn_ in noise.methods for e in _escaping_auth(noise.methods[hn_])]
+    witness = None
+    for cn_ in cnodes:
+        witness = witness or paths_avoiding(gdr, cn_, hnodes, lambda n: n in heads)
+    ctx.ob(
+        "C04.R2",
+        dr,
+        "a frame is consumed only after its handler returned (a frame that fails authentication stays at the head of the buffer and fails again until connection_lost arrives)",
+        witness is None or not esc,
+        f"consumed before dispatch on {fmt_path(witness) if witness else []}; authentication failures escaping the handlers: {esc}",
+    )
 
     # ------------------------------------------------------------------ R3
     init = noise.methods["__init__"]
@@ -469,7 +501,7 @@ def preamble_before_giveup(ctx: Ctx, pdr: Func) -> list[str]:
     """Plaintext receive loop: the loop runs only while bytes are buffered, so the first byte (the
     preamble) is always available; every `return` inside an iteration must therefore come after the
     preamble comparison.  Returns the offending return sites."""
-    from ..flow import occurred_before
+    from ..flow import fmt_path, occurred_before, paths_avoiding
 
     gp = cfg_of(ctx, pdr)
     loops = [n for n in own_nodes(pdr.node) if isinstance(n, ast.While)]
